@@ -22,8 +22,8 @@
    * the final key has all offsets 0xFFFFFFFFFFFFFFFF, size 0, mask 0.
    * entries are sorted with sort.Slice by compareChunkCoords (lexicographic on the offsets, dimension 0 first).
      sort.Slice is not stable; for entry lists whose coordinates are pairwise different every sorting algorithm
-     returns the same list, and those are the only lists the dataset writer builds (it adds the chunks in row-major
-     order: Proofs/ChunkIndex.v grid_keys_sorted).  The model sorts by insertion.
+     returns the same list, and those are the only lists the dataset writer builds (different grid chunks have
+     different offsets: Proofs/ChunkIndex.v grid_keys_injective).  The model sorts by insertion.
 
    The in-memory file is `bytes`; write_at = os.File.WriteAt (zero fill when writing beyond the end), read_at =
    io.ReaderAt.ReadAt of exactly n bytes (short read = error).  int64(address) conversions: an address above
@@ -31,7 +31,7 @@
 
    Node invariant of ParseBTreeV1Node: len(Children) = EntriesUsed and len(Keys) = EntriesUsed + 1 (or both empty
    when EntriesUsed = 0; EntriesUsed = 65535 never yields a node, see parse_entries).  The loops `for i := 0; i < int(node.EntriesUsed); i++ { node.Keys[i] .. node.Children[i] }`
-   of collectAllChunks are therefore structural over the children list here (Proofs/ChunkIndex.v parse_node_shape).
+   of collectAllChunks are therefore structural over the children list here.
    int arithmetic on sizes (keySize, dataSize <= 65535 * (8 + 8*255 + 255) + ..) cannot overflow 64 bits and is left
    unwrapped; uint64 address arithmetic is wrapped.
    No proofs in this file. *)
@@ -272,7 +272,8 @@ Fixpoint collect (f : bytes) (osz : N) (cdims : list N) (fuel : nat) (level : N)
            end) children [] visited
   end.
 
-(* NodeLevel is a uint8: 256 units of fuel are never used up (Proofs/ChunkIndex.v collect_fuel) *)
+(* NodeLevel is a uint8 and strictly decreases along the descent: 256 units of fuel (same recursion as bt_collect,
+   C07_btree_descent_terminates; the correspondence node_graph / tres_of below is stated, not proved) *)
 Definition collect_all_chunks (f : bytes) (osz : N) (cdims : list N) (nd : bnode) : cres (list centry) :=
   match collect f osz cdims 256 (n_level nd) (n_keys nd) (n_children nd) [] with
   | COk (ch, _) => COk ch
